@@ -61,6 +61,9 @@ TInit == /\ l = 1 /\ cfg = NoCfg /\ pt = Empty /\ bufs = Empty /\ claunch = Empt
          /\ lastFlush = Empty /\ cmds = Empty /\ reqs = Empty /\ arch = Empty /\ sto = Empty /\ alen = 0 /\ taint = Empty
 
 Deviation(name) == PrintT(<<"DEVIATION", name, l>>)
+\* TLC unrolls a quantifier that is a conjunct of an action into one recursion level per element;
+\* ranges here have thousands of elements, so big quantifiers are evaluated as plain Boolean values.
+Holds(p) == p = TRUE
 
 \* --------------------------------------------------------------- helpers
 Range(a, n) == a .. (a + n - 1)
@@ -215,11 +218,10 @@ TDone ==
          k == cmds[c].k
          va == cmds[c].va
          n == cmds[c].n
-     IN /\ cfg.magic = 0 /\ k \in {"h2d", "d2h"} => AllMoved(c)
-        /\ cfg.magic = 0 /\ k = "kern" => \E r \in ReqsOf(c) : reqs[r].k = "launch" /\ reqs[r].st = "taken"
-        /\ cfg.magic = 1 => ReqsOf(c) = {}
+     IN /\ k \in {"h2d", "d2h"} => IF cfg.magic = 0 THEN AllMoved(c) ELSE ReqsOf(c) = {}
+        /\ k = "kern" => \E r \in ReqsOf(c) : reqs[r].k = "launch" /\ reqs[r].st = "taken"
         /\ CASE k = "h2d" ->
-                  /\ \A a \in Range(va, n) : Known(a)
+                  /\ Holds(\A a \in Range(va, n) : Known(a))
                   /\ arch' = Over(arch, va, cmds[c].d)
                   /\ UNCHANGED taint
              [] k = "d2h" ->
@@ -227,11 +229,11 @@ TDone ==
                   \* the host receives, at every offset, the bytes the answers carried ...
                   /\ cfg.magic = 0 => \A r \in Pieces(c) : reqs[r].d = Slice(Ev.d, reqs[r].off, reqs[r].n)
                   \* ... and they are the contents of device memory
-                  /\ \/ \A i \in 1..n : ArchIs(va + i - 1, Ev.d[i])
+                  /\ \/ Holds(\A i \in 1..n : ArchIs(va + i - 1, Ev.d[i]))
                      \/ cmds[c].dev     \* stale bytes are the consequence of the flush deviation reported above
                   /\ UNCHANGED <<arch, taint>>
              [] k = "kern" ->        \* copy kernel: n bytes from ks to kd
-                  /\ \A i \in 0..(n - 1) : Known(cmds[c].kd + i) /\ Known(cmds[c].ks + i)
+                  /\ Holds(\A i \in 0..(n - 1) : Known(cmds[c].kd + i) /\ Known(cmds[c].ks + i))
                   /\ arch' = Over(arch, cmds[c].kd, [i \in 1..n |-> arch[Ix(cmds[c].ks) + i - 1]])
                   /\ taint' = IF cfg.cached = 1 THEN Over(taint, cmds[c].kd, [i \in 1..n |-> 1]) ELSE taint
         /\ cmds' = [cmds EXCEPT ![c].st = "done"]
@@ -239,11 +241,11 @@ TDone ==
 
 \* the emulator's memory path (StorageAccessor) on the same page table and storage
 TAccW ==
-  /\ Is("AccW") /\ Len(Ev.d) = Ev.n /\ \A a \in Range(Ev.va, Ev.n) : Known(a)
+  /\ Is("AccW") /\ Len(Ev.d) = Ev.n /\ Holds(\A a \in Range(Ev.va, Ev.n) : Known(a))
   /\ arch' = Over(arch, Ev.va, Ev.d)
   /\ Same(<<cfg, pt, bufs, claunch, launches, lastFlush, cmds, reqs, sto, alen, taint>>)
 TAccR ==
-  /\ Is("AccR") /\ Len(Ev.d) = Ev.n /\ \A i \in 1..Ev.n : ArchIs(Ev.va + i - 1, Ev.d[i])
+  /\ Is("AccR") /\ Len(Ev.d) = Ev.n /\ Holds(\A i \in 1..Ev.n : ArchIs(Ev.va + i - 1, Ev.d[i]))
   /\ Same(<<cfg, pt, bufs, claunch, launches, lastFlush, cmds, reqs, arch, sto, alen, taint>>)
 
 \* ----------------------------------------------------------------- storage
@@ -258,8 +260,8 @@ TSto ==
   /\ Is("Sto") /\ Ev.wild = 0
   /\ \A k \in 1..Len(Ev.chg) : Ix(Ev.chg[k][1]) >= 1 /\ Ix(Ev.chg[k][1]) + Len(Ev.chg[k][2]) - 1 <= alen
   /\ LET new == Apply(sto, Ev.chg)     \* (no primed variable inside the big quantifier: TLC would unroll it)
-     IN /\ Running = {} => \A b \in LiveBufs : \A i \in Ix(bufs[b].va)..(Ix(bufs[b].va) + bufs[b].n - 1) :
-                               (taint[i] = 0 /\ arch[i] # -1) => new[i] = arch[i]
+     IN /\ Holds(Running = {} => \A b \in LiveBufs : \A i \in Ix(bufs[b].va)..(Ix(bufs[b].va) + bufs[b].n - 1) :
+                                     (taint[i] = 0 /\ arch[i] # -1) => new[i] = arch[i])
         /\ sto' = new
   /\ Same(<<cfg, pt, bufs, claunch, launches, lastFlush, cmds, reqs, arch, alen, taint>>)
 
